@@ -32,7 +32,8 @@ POLICIES = ["EpsilonGreedy", "UCB1", "Softmax", "Popularity", "ThompsonSampling"
 
 @st.composite
 def plan_st(draw, tier):
-    cfg = draw(gen.config_st(many_arms_ok=True, lps=POLICIES, nps=[None], arm_kinds=("int", "str", "float", "mix"), min_arms=1, max_arms=5))
+    cfg = draw(gen.config_st(many_arms_ok=True, lps=POLICIES, nps=[None], arm_kinds=("int", "str", "float", "mix", "int", "str", "float", "mix", "bigint"), min_arms=1,
+                             max_arms=5))
     h = gen.History(draw, cfg, max_rows=12)
     n = draw(st.integers(1, 14 if tier == "quick" else 25))
     for _ in range(draw(st.sampled_from([0, 0, 0, 1, 2]))):      # arm changes before the first training call
@@ -50,7 +51,11 @@ def plan_st(draw, tier):
     if h.family in ("Eint", "B") and draw(st.integers(0, 3)) == 0:
         # rewards handed over as a compact array (ratings in int8, clicks as bool): sums must not be formed in that type
         rdt = draw(st.sampled_from(["int8", "int16", "int32"] if h.family == "Eint" else ["bool", "int8", "uint8"]))
-    return {"config": cfg, "ops": ops_, "family": h.family, "mq": mq, "reward_dtype": rdt}
+    das = None
+    if cfg["arm_kind"] in ("int", "bigint") and draw(st.integers(0, 2 if cfg["arm_kind"] == "bigint" else 7)) == 0:
+        # decisions as a pandas Series of the nullable integer type, or an int64 array
+        das = draw(st.sampled_from(["Int64", "Int64", "int64"]))
+    return {"config": cfg, "ops": ops_, "family": h.family, "mq": mq, "reward_dtype": rdt, "decisions_as": das}
 
 
 def strategy(tier, ctx):
@@ -218,8 +223,29 @@ def evaluate(plan, ctx):
     rdt = plan.get("reward_dtype")
     if rdt:
         events.append("rewards_as_" + rdt)
+    das = plan.get("decisions_as")
+    if das:
+        events.append("decisions_as_" + das)
+
+    def dec_of(values):
+        if das == "Int64":
+            import pandas as pd
+            return pd.Series(list(values), dtype="Int64")
+        if das == "int64":
+            return np.array(list(values), dtype=np.int64)
+        return values
+
     for i, op in enumerate(plan["ops"]):
-        if rdt and op[0] in ("fit", "partial_fit"):
+        if das and op[0] in ("fit", "partial_fit", "fit_tiled", "partial_fit_tiled"):
+            t = op[4] if op[0].endswith("_tiled") else 1
+            rw = list(op[2]) * t
+            try:
+                getattr(mab, op[0].replace("_tiled", ""))(dec_of(list(op[1]) * t),
+                                                          np.asarray(rw, dtype=rdt) if rdt else rw)
+                out = None
+            except Exception as e:
+                out = ops.Exc(e)
+        elif rdt and op[0] in ("fit", "partial_fit"):
             out = ops.apply_op(mab, [op[0], op[1], {"array": op[2], "dtype": rdt}, op[3]])
         elif rdt and op[0] in ("fit_tiled", "partial_fit_tiled"):
             out = ops.apply_op(mab, [op[0][:-6], list(op[1]) * op[4], {"array": list(op[2]) * op[4], "dtype": rdt},
